@@ -84,7 +84,7 @@ func init() {
 				if d := oracle.Equal(snap, fresh, tol); d != "" {
 					_, expr, _ := ExprType(a.Query)
 					kc := &core.Case{Query: a.Query, Series: st.Dump(), Start: a.Start, End: a.End, Step: a.Step, Lookback: c.Lookback, Shuffle: c.Shuffle}
-					if expr != nil && snap.Err == nil && fresh.Err == nil && TopkAmbiguous(kc, expr, st) {
+					if expr != nil && TopkAmbiguous(kc, expr, st) {
 						continue
 					}
 					if id := knownDifferential(c, a.Query, st.Dump(), a.Start, a.End, a.Step); id != "" {
